@@ -41,7 +41,10 @@ vars == <<wa, wb, wc, wd, h, side, done>>
 \* wd: an optional second infoset of player two with many actions; probabilities such as 1/10 or 1/7 are
 \* not exact in binary floating point, so the stored infoset sums to one only up to rounding
 Wide == {[j \in 1..10 |-> 1], [j \in 1..7 |-> 1], <<1, 2, 4>>, <<3, 3, 1>>, [j \in 1..6 |-> IF j = 1 THEN 5 ELSE 1],
-         <<1, 2, 3, 2>>, <<5, 1, 1, 3>>}
+         <<1, 2, 3, 2>>, <<5, 1, 1, 3>>,
+         \* the LAST action is the small one and the rescaled survivors (3, 10, 6 over 19) are inexact in binary: whatever a
+         \* renormalisation does with the rounding residue, a removed action stays at exactly zero
+         <<3, 10, 6, 1>>, <<7, 9, 3, 1>>}
 S == IF wd = <<>> THEN <<Normalise(wa), Normalise(wb), Normalise(wc)>>
      ELSE <<Normalise(wa), Normalise(wb), Normalise(wc), Normalise(wd)>>
 
